@@ -312,7 +312,8 @@ class Parser:
         except RecursionError:
             # braces nested deeper than the interpreter can follow (some hundred
             # levels): leave the text unexpanded instead of failing the article
-            parsed_nodes = self.txt
+            # (the text as tokenized: extension tags stay replaced by their markers)
+            parsed_nodes = "".join(txt for token_type, txt in self.tokens if token_type != Symbols.noi)
 
         if self.use_cache:
             self._cache[fingerprint] = parsed_nodes
